@@ -48,6 +48,9 @@ type Client struct {
 	// isClosedConnection indicates if the websocket connection is closed.
 	isClosedConnection bool
 	mu                 *sync.RWMutex
+	// writeMu serializes the frames written to clientConn: a frame is written with more than one Write call
+	// (header, payload), so a close frame must not be written while a message frame of another goroutine is in flight.
+	writeMu sync.Mutex
 }
 
 // NewClient will create a new websocket subscription client.
@@ -94,7 +97,9 @@ func (c *Client) WriteBytesToClient(message []byte) error {
 		return subscription.ErrTransportClientClosedConnection
 	}
 
+	c.writeMu.Lock()
 	err := wsutil.WriteServerMessage(c.clientConn, ws.OpText, message)
+	c.writeMu.Unlock()
 	if errors.Is(err, io.ErrClosedPipe) {
 		c.changeConnectionStateToClosed()
 		return subscription.ErrTransportClientClosedConnection
@@ -158,10 +163,14 @@ func (c *Client) DisconnectWithReason(reason any) error {
 }
 
 func (c *Client) writeFrame(frame ws.Frame) error {
+	c.writeMu.Lock()
+	defer c.writeMu.Unlock()
 	return ws.WriteFrame(c.clientConn, frame)
 }
 
 func (c *Client) writeCompiledFrame(compiledFrame []byte) error {
+	c.writeMu.Lock()
+	defer c.writeMu.Unlock()
 	_, err := c.clientConn.Write(compiledFrame)
 	return err
 }
